@@ -31,7 +31,7 @@ META = {
         'stack)',
     ],
     'bounds': {
-        'quick': 'H1 N<=2 notes x S<=3 splits; H2 K<=2 state events x S=3; '
+        'quick': 'H1 N<=3 notes x S<=3 splits; H2 K<=3 state events x S=3; '
                  'H3 P<=2 pedal events; H4 K<=2 annotations; H5 N<=2, <=2 '
                  'split candidates',
         'thorough': 'H1 N<=3 x S<=4; H2 K<=3 x S<=4; H3 P<=3; H4 K<=3; H5 N<=3, '
@@ -515,13 +515,14 @@ def jobs(tier):
               'required': required})
 
   deep = tier == 'thorough'
-  for (n, s) in [(1, 2), (1, 3), (2, 2), (2, 3)]:
+  for (n, s) in [(1, 2), (1, 3), (2, 2), (2, 3), (3, 3)]:
     add('h1_partition', N=n, S=s)
   add('h1e_errors', S=2)
   add('h1e_errors', S=3)
   for kind in _KINDS:
     add('h2_state', kind=kind, K=1, S=3)
     add('h2_state', kind=kind, K=2, S=3)
+    add('h2_state', kind=kind, K=3, S=3)
   add('h3_pedals', P=1, S=3)
   add('h3_pedals', P=2, S=2)
   add('h4_stateless', K=1, S=3)
@@ -539,11 +540,9 @@ def jobs(tier):
   add('h5_silence', N=3)
   add('h6_trim_extract', N=2)
   if deep:
-    add('h1_partition', budget=1500, N=3, S=3)
     add('h1_partition', budget=1500, N=2, S=4)
     add('h1_partition', budget=2400, required=False, N=3, S=4)
     for kind in _KINDS:
-      add('h2_state', budget=1500, kind=kind, K=3, S=3)
       add('h2_state', budget=1500, required=False, kind=kind, K=3, S=4)
     add('h3_pedals', budget=1500, P=2, S=3)
     add('h3_pedals', budget=2400, required=False, P=3, S=3)
